@@ -163,7 +163,7 @@ func (propC01) Level() string  { return "exploration" }
 func (propC01) NewParams() any { return &StoreParams{} }
 func (propC01) Plan(tier string) (int, int) {
 	if tier == "thorough" {
-		return 250000, 0
+		return 2000000, 0
 	}
 	return 12000, 0
 }
@@ -329,7 +329,7 @@ func (propC07) Level() string  { return "exploration" }
 func (propC07) NewParams() any { return &StoreParams{} }
 func (propC07) Plan(tier string) (int, int) {
 	if tier == "thorough" {
-		return 250000, 0
+		return 2000000, 0
 	}
 	return 16000, 0
 }
@@ -482,7 +482,7 @@ func (propC02) Level() string  { return "exploration" }
 func (propC02) NewParams() any { return &StoreParams{} }
 func (propC02) Plan(tier string) (int, int) {
 	if tier == "thorough" {
-		return 250000, 0
+		return 2000000, 0
 	}
 	return 20000, 0
 }
